@@ -27,7 +27,9 @@ ASSUMPTIONS = [
 ]
 
 TCHAR = string.ascii_letters + string.digits + "!#$%&'*+-.^_`|~"
-BASE_NAMES = ["x-a", "x-b", "content-length", "content-type", "user-agent", "host", "accept-encoding", "x-long-name", "authorization"]
+# (names that merely contain a protected name are ordinary headers)
+BASE_NAMES = ["x-a", "x-b", "content-length", "content-type", "user-agent", "host", "accept-encoding", "x-long-name", "authorization",
+              "x-content-type-options", "x-upload-content-length", "content-type-hint", "x-user-agent"]
 PROTECTED = ("content-length", "content-type")
 
 
@@ -72,7 +74,8 @@ def cases(draw):
 def chain_cases(draw):
     """A nested chain of 1-4 blocks over two colliding names, calls at every level"""
     k = draw(st.integers(1, 4))
-    pool = ["x-a", "X-A", "x-A", "X-a", "x-b", "X-B", "User-Agent", "user-agent", "CONTENT-type", "content-LENGTH", "Host", "Authorization", "authorization"]
+    pool = ["x-a", "X-A", "x-A", "X-a", "x-b", "X-B", "User-Agent", "user-agent", "CONTENT-type", "content-LENGTH", "Host", "Authorization", "authorization",
+            "X-Content-Type-Options", "x-upload-content-length"]
 
     def small_dict():
         names = draw(st.lists(st.sampled_from(pool), min_size=1, max_size=3, unique_by=lambda n: n.lower()))
